@@ -36,8 +36,14 @@ type round struct {
 	tainted      map[string]bool // roots whose snapshot was left incomplete by a report-only data-trie fault or taken from a broken main DB: a later request for the same root (empty block) is skipped by design as "already taken"
 	reprocessed  map[string]bool // roots of blocks that were rolled back and processed again (identical block)
 	noFinalize   bool            // set during a fault window: the root to be re-requested must not get pruned
-	baseBroken   bool // an earlier request could not be served from an intact main DB: the snapshot DB contents that
+	baseBroken   bool            // an earlier request could not be served from an intact main DB: the snapshot DB contents that
 	// later checkpoints build on are not trustworthy until the next verified snapshot
+
+	// an interrupted checkpoint (one failed traversal read) that was NOT repeated has happened since the last verified
+	// snapshot: the next checkpoint must still be complete (key checkpoint-incomplete-after-interrupted-checkpoint)
+	interruptedCkpt bool
+	racing          map[string]bool // long-epoch phase: roots of blocks whose Commit overlapped a snapshot request
+	lastSnapIdx     int             // long-epoch phase: chain index of the block of the last snapshot
 
 	ops     []string
 	blocked int32 // set by the recorder callbacks: prune requests seen while pruning was blocked (window evidence)
@@ -344,14 +350,24 @@ func (ro *round) window(profile string) {
 	// snapshot goroutine gives up before the root is written; once pruning is unblocked the same root is requested
 	// again and must then be complete. In 1 of 4 fault windows the failing read is a DATA trie node instead; that
 	// variant is report-only (see faultInDataTrie below).
-	fault := kind == "snapshot" && verifiable && rng.Chance(1, 4)
+	fault := verifiable && rng.Chance(1, 4)
 	faultInDataTrie := false
+	// checkpoint fault windows come in two variants: "repeat" requests the checkpoint of the same root again (as for
+	// snapshots), "next" leaves the interrupted checkpoint alone: the next request - the checkpoint of a later final
+	// block, or a snapshot - has to be complete all the same
+	repeatAfterFault := true
+	if fault && kind == "checkpoint" && (ro.baseBroken || ro.w.NextFinal().Empty) {
+		fault = false // nothing to learn: the checkpoint would not be verified / writes nothing
+	}
+	if fault && kind == "checkpoint" {
+		repeatAfterFault = rng.Bool()
+	}
 	faults0 := atomic.LoadInt64(&ro.env.Gate.FaultsInjected)
 	if fault {
 		mainNodes, errM := cm.MainTrieHashes(ro.env.Gate.Raw, b.Root)
 		targets := map[string]struct{}{}
 		if errM == nil {
-			if rng.Chance(1, 4) {
+			if rng.Chance(1, 4) && repeatAfterFault {
 				faultInDataTrie = true
 				for h := range ro.nodes[string(b.Root)] {
 					if _, inMain := mainNodes[h]; !inMain {
@@ -370,11 +386,15 @@ func (ro *round) window(profile string) {
 			fault, faultInDataTrie = false, false
 		} else {
 			nth := rng.Range(1, 5)
+			if kind == "checkpoint" {
+				// a checkpoint only reads the children of dirty nodes: the root's children first, then the dirty sub tries
+				nth = rng.Range(1, 7)
+			}
 			if nth > len(targets) {
 				nth = len(targets)
 			}
 			ro.env.Gate.ArmFailOnce(targets, nth)
-			ro.noFinalize = true
+			ro.noFinalize = repeatAfterFault
 		}
 	}
 	defer func() { ro.noFinalize = false; ro.env.Gate.DisarmFail() }()
@@ -431,12 +451,32 @@ func (ro *round) window(profile string) {
 			verifiable = false
 			r.Count("requests_not_verified_root_already_broken_in_main_db", 1)
 		}
-		ro.env.Rec.SnapshotState(append([]byte(nil), b.Root...))
-		ro.op(fmt.Sprintf("snapshot request for root=%s repeated after the interrupted attempt (fault injected: %v)", cm.Short(b.Root), injected))
-		if !cm.WaitUnblocked(ro.env.Tsm, 300*time.Second) {
-			r.Inconclusive("repeated snapshot did not finish within 300 s")
-			ro.dead = true
-			return
+		if injected {
+			r.Count("fault_windows_"+kind+"_with_injected_read_fault", 1)
+		}
+		if !repeatAfterFault {
+			if injected {
+				// variant "next": the interrupted checkpoint is not repeated and not verified; what it did save stays in
+				// the snapshot DB, what it did not save stays marked dirty, so the next request must be complete
+				r.Count("fault_windows_checkpoint_interrupted_and_not_repeated", 1)
+				ro.op(fmt.Sprintf("checkpoint of root=%s interrupted by one failed read, NOT repeated", cm.Short(b.Root)))
+				ro.interruptedCkpt = true
+				ro.executed = append(ro.executed, request{kind, string(model.Root), len(ro.commits)})
+				r.Count("requests_"+kind, 1)
+				return
+			}
+		} else {
+			if kind == "snapshot" {
+				ro.env.Rec.SnapshotState(append([]byte(nil), b.Root...))
+			} else {
+				ro.env.Rec.SetStateCheckpoint(append([]byte(nil), b.Root...))
+			}
+			ro.op(fmt.Sprintf("%s request for root=%s repeated after the interrupted attempt (fault injected: %v)", kind, cm.Short(b.Root), injected))
+			if !cm.WaitUnblocked(ro.env.Tsm, 300*time.Second) {
+				r.Inconclusive("repeated " + kind + " did not finish within 300 s")
+				ro.dead = true
+				return
+			}
 		}
 		ro.noFinalize = false
 	}
@@ -490,14 +530,22 @@ func (ro *round) window(profile string) {
 			return
 		}
 	}
-	if key != "" && injected {
-		key = "snapshot-incomplete-after-interrupted-attempt"
+	generic := key != "" && key != knownCheckpointShape && key != reprocessedClass
+	if generic && injected {
+		key = kind + "-incomplete-after-interrupted-attempt"
 		what = "first attempt interrupted by one failed read, request repeated after pruning was unblocked: " + what
+	} else if generic && ro.interruptedCkpt {
+		key = kind + "-incomplete-after-interrupted-checkpoint"
+		what = "an earlier checkpoint had been interrupted by one failed read and was not repeated: " + what
+	}
+	if ro.interruptedCkpt {
+		r.Count("requests_verified_after_an_interrupted_unrepeated_checkpoint", 1)
 	}
 	ro.executed = append(ro.executed, request{kind, string(model.Root), len(ro.commits)})
 	if key == "" {
 		if kind == "snapshot" {
 			ro.baseBroken = false
+			ro.interruptedCkpt = false // a snapshot is self-contained and resets the dirty bookkeeping up to its root
 		}
 		if r.NeedSample() && ro.c.Idx < 3 && overlapped > 0 {
 			n := len(ro.ops)
@@ -591,9 +639,10 @@ func (ro *round) verify(kind string, model *cm.Block) (string, string, map[strin
 // directed witnesses: minimal, fully sequential histories of the checkpoint defect this monitor found, replayed
 // through the same oracle in every run. N is the code leaf {codeA, 1 reference}; every block is committed before
 // anything is finalized (the head is ahead of the final block), every request is awaited before the next one.
-//  #0: h1 creates N, h2 drops it, h3 creates it again; checkpoint(h1), snapshot(h2), checkpoint(h3).
-//  #1: h1 creates N, h2 keeps it, h3 drops it, h4 creates it again; snapshot(h1), checkpoint(h2), snapshot(h3),
-//      checkpoint(h4): checkpoint(h2) finds N dirty only because of h4 and erases it from h4's dirty entry.
+//
+//	#0: h1 creates N, h2 drops it, h3 creates it again; checkpoint(h1), snapshot(h2), checkpoint(h3).
+//	#1: h1 creates N, h2 keeps it, h3 drops it, h4 creates it again; snapshot(h1), checkpoint(h2), snapshot(h3),
+//	    checkpoint(h4): checkpoint(h2) finds N dirty only because of h4 and erases it from h4's dirty entry.
 func runDirected(r *vk.Run, c *vk.Case, variant int) {
 	env, err := cm.NewEnv(cm.EnvConfig{MaxTrieLevelInMem: 5, EwlCache: 3, PruningBufferLen: 1000, QueueSize: 6, CheckpointModulus: 0, MaxSnapshots: 3})
 	if err != nil {
@@ -743,13 +792,14 @@ func runRound(r *vk.Run, c *vk.Case, scratch string) {
 func main() {
 	_ = logger.SetLogLevel("*:NONE")
 	r := vk.Start("C10")
-	r.Rule("each case is one round: a chain over 6 accounts + counter account (storage, code, removals) with 12 request windows. A window takes the block that becomes final next, issues exactly one request for its root the way the block processors do (explicit SnapshotState before updateStateStorage, or the checkpoint that updateStateStorage itself fires when height % CheckpointRoundsModulus == 0), then a mutator goroutine runs 0-5 further chain steps (commit / finalize with prune requests / rollback above the final block) concurrently with the snapshot goroutines, whose main-DB reads are held on logical tokens released per step (2/3 of the rounds) or slowed (1/3); then the harness waits for IsPruningBlocked()==false and verifies. One request outstanding at a time, final roots only, SnapshotsBufferLen 10000, MaxSnapshots 2-3. Round types by case index mod 4: mixed (snapshots + modulus checkpoints) / snapshots only / checkpoints only (modulus 1, no rotation) / mixed with monotone state (no node-hash revisit: unique slot values, no removals, code fixed after block 0) - only the first type can contain the known checkpoint shape. Two extra fixed cases replay the minimal sequential witnesses of that shape. 1 in 6 commits is an empty block (root equal to its parent's). Chain steps include re-processing: the head is rolled back and the identical block (same operations, same root) is committed again. 1 in 4 snapshot windows is a fault window: exactly one read of a non-root node of the traversal fails (the snapshot goroutine gives up), nothing is finalized meanwhile, and once pruning is unblocked SnapshotState is requested again for the same root and then verified. A window is non-trivial when the state has at least one data trie; distinct = distinct (kind, gate, steps, overlapped, rollback-in-window, prunes-buffered-in-window, #data tries, queue size) tuples.")
+	r.Rule("each case is one round: a chain over 6 accounts + counter account (storage, code, removals) with 12 request windows. A window takes the block that becomes final next, issues exactly one request for its root the way the block processors do (explicit SnapshotState before updateStateStorage, or the checkpoint that updateStateStorage itself fires when height % CheckpointRoundsModulus == 0), then a mutator goroutine runs 0-5 further chain steps (commit / finalize with prune requests / rollback above the final block) concurrently with the snapshot goroutines, whose main-DB reads are held on logical tokens released per step (2/3 of the rounds) or slowed (1/3); then the harness waits for IsPruningBlocked()==false and verifies. One request outstanding at a time, final roots only, SnapshotsBufferLen 10000, MaxSnapshots 2-3. Round types by case index mod 4: mixed (snapshots + modulus checkpoints) / snapshots only / checkpoints only (modulus 1, no rotation) / mixed with monotone state (no node-hash revisit: unique slot values, no removals, code fixed after block 0) - only the first type can contain the known checkpoint shape. Two extra fixed cases replay the minimal sequential witnesses of that shape. 1 in 6 commits is an empty block (root equal to its parent's). Chain steps include re-processing: the head is rolled back and the identical block (same operations, same root) is committed again. 1 in 4 windows (snapshot or checkpoint) is a fault window: exactly one read of a non-root main-trie node of the traversal fails (the snapshot goroutine gives up). For snapshots and half of the checkpoints nothing is finalized meanwhile and, once pruning is unblocked, the same request is issued again for the same root and then verified; for the other half of the checkpoints the interrupted checkpoint is NOT repeated and the next request (the checkpoint of a later final block, or a snapshot) is verified as usual. After the random rounds, LONG-EPOCH rounds (8 quick / 120 thorough, 5 epochs each, sequential and awaited except for one overlap per epoch): blocks ahead of the final one are finalized with explicit verified checkpoints (2 of 3) or quietly; the checkpoint hashes holder is pre-loaded with 5000 (thorough 20000) empty entries (the holder of a node that committed and checkpointed many blocks since its last snapshot); 1-2 blocks are committed and the last one S is snapshotted: SnapshotState(S), finalize S, commit the next block R (+0-2 more) on the mutator goroutine, while a decorator of the holder (the harness supplies the CheckpointHashesHolder) starts the request's RemoveCommitted only when R's AddDirtyCheckpointHashes is about to Put and lets that Put go as soon as RemoveCommitted was started; the snapshot of S and, in the next epoch, the checkpoints that cover R are verified. A window is non-trivial when the state has at least one data trie; distinct = distinct (kind, gate, steps, overlapped, rollback-in-window, prunes-buffered-in-window, #data tries, queue size) tuples.")
 	r.Assume(
 		"requests never overlap and are issued only for roots of blocks that have just become final (DESIGN C10 restrictions); overlapping requests are outside the property",
 		"a request whose root is already incomplete in the main DB at request time is not verified (pruning defects are C09's subject) and only counted; neither are the checkpoints that build on such a request, until the next verified snapshot",
 		"traversal 'using only that DB': a fresh trie over trieStorageManagerWithoutPruning(snapshot DB)",
 		"with LvlDBSerial snapshot DBs only, verification reads are retried for up to 1 s (100 ms apart) (SerialDB swaps its write batch before flushing it; stored data is persistent, a real hole stays a hole); no retry with MemoryDB",
-		"an interrupted snapshot attempt may leave a partial snapshot DB behind; the property is checked on the repeated request (key snapshot-incomplete-after-interrupted-attempt)",
+		"an interrupted snapshot or checkpoint attempt may leave a partial snapshot DB behind; the property is checked on the repeated request (key <kind>-incomplete-after-interrupted-attempt) or, for checkpoints that are not repeated, on the next request (key <kind>-incomplete-after-interrupted-checkpoint); faults inside a data-trie traversal stay report-only",
+		"long-epoch rounds: pre-loaded holder entries have an empty hash set and a root hash that is no trie node, so they never change ShouldCommit; the holder decorator only orders the start of RemoveCommitted (snapshot goroutine, no lock held) after the arrival of the next Put and yields in that Put (inside AccountsDB.Commit, whose mutex no other party of the overlap needs); both waits are bounded and never decide a verdict",
 		"waiting is bounded by logical steps; the 300 s wall-clock watchdogs only ever yield INCONCLUSIVE",
 	)
 	r.MinShapes(20)
@@ -762,7 +812,13 @@ func main() {
 		}
 	}
 	n := r.N(32, 600)
-	r.Parallel(n+2, func(c *vk.Case) {
+	nLong := r.N(8, 120)
+	preload := r.N(5000, 20000)
+	r.Parallel(n+2+nLong, func(c *vk.Case) {
+		if c.Idx >= n+2 {
+			runLongEpoch(r, c, preload)
+			return
+		}
 		if c.Idx >= n {
 			runDirected(r, c, c.Idx-n) // two scripted, fully sequential cases
 			return
@@ -773,8 +829,15 @@ func main() {
 		r.Extra("race_reports", races)
 	}
 	r.Extra("rounds", n)
+	r.Extra("long_epoch_rounds", nLong)
 	if r.ReplayCase < 0 && r.Counter("requests_snapshot")+r.Counter("requests_checkpoint") < int64(n)*6 {
 		r.Inconclusive("fewer than half of the planned requests were verified")
+	}
+	if r.ReplayCase < 0 && r.Counter("long_epoch_commit_overlapped_snapshot_request") < int64(nLong) {
+		r.Inconclusive("long-epoch phase: fewer than one commit per round overlapped a snapshot request")
+	}
+	if r.ReplayCase < 0 && r.Counter("fault_windows_checkpoint_with_injected_read_fault") == 0 {
+		r.Inconclusive("no checkpoint was ever interrupted by an injected read fault")
 	}
 	if r.ReplayCase < 0 && r.Counter("window_steps_while_snapshot_in_progress") == 0 {
 		r.Inconclusive("no chain step ever overlapped a snapshot in progress")
